@@ -151,6 +151,10 @@ pub struct KsState {
     /// removed; used only to classify the known finding "ingested tombstone garbage-collected,
     /// journaled value replayed at reopen"
     pub ingest_tombstoned: BTreeMap<Vec<u8>, Vec<u8>>,
+    /// keys whose latest operation is a *value* written by a bulk ingestion over an existing value, with the
+    /// value it replaced; used only to classify known finding F9 (C18: the compaction filter removes the
+    /// ingested item, the older journaled write is replayed at reopen)
+    pub ingest_overwrote: BTreeMap<Vec<u8>, Vec<u8>>,
 }
 
 #[derive(Clone, Debug, Default)]
@@ -164,6 +168,7 @@ impl Model {
     pub fn put(&mut self, ks: u8, k: &[u8], v: Vec<u8>) {
         if let Some(s) = self.ks.get_mut(&ks) {
             s.ingest_tombstoned.remove(k);
+            s.ingest_overwrote.remove(k);
             s.map.insert(k.to_vec(), v);
             *s.wcount.entry(k.to_vec()).or_insert(0) += 1;
         }
@@ -171,6 +176,7 @@ impl Model {
     pub fn del(&mut self, ks: u8, k: &[u8]) {
         if let Some(s) = self.ks.get_mut(&ks) {
             s.ingest_tombstoned.remove(k);
+            s.ingest_overwrote.remove(k);
             s.map.remove(k);
             *s.wcount.entry(k.to_vec()).or_insert(0) += 1;
         }
@@ -214,12 +220,19 @@ impl Model {
                     s.wcount.clear();
                     s.weak_deleted.clear();
                     s.ingest_tombstoned.clear();
+                    s.ingest_overwrote.clear();
                 }
             }
             Op::Ingest { ks, items } => {
                 for (k, v) in items {
                     match v {
-                        Some(v) => self.put(*ks, k, v.bytes()),
+                        Some(v) => {
+                            let prev = self.ks.get(ks).and_then(|s| s.map.get(k).cloned());
+                            self.put(*ks, k, v.bytes());
+                            if let (Some(prev), Some(s)) = (prev, self.ks.get_mut(ks)) {
+                                s.ingest_overwrote.insert(k.clone(), prev);
+                            }
+                        }
                         None => {
                             let prev = self.ks.get(ks).and_then(|s| s.map.get(k).cloned());
                             self.del(*ks, k);
@@ -242,6 +255,7 @@ impl Model {
                             generation,
                             weak_deleted: BTreeMap::new(),
                             ingest_tombstoned: BTreeMap::new(),
+                            ingest_overwrote: BTreeMap::new(),
                         },
                     );
                 }
@@ -1046,20 +1060,47 @@ impl Exec {
         let h = self.handle(ks)?;
         let exp = self.model.ks[&ks].map.clone();
         let what = format!("{}@latest(filtered)", ks_name(ks));
-        if self.cfg.workers > 0 {
-            // background compactions may apply the filter between two reads: compare at rest
-            self.wait_quiescent()?;
+        // With real worker threads a background compaction may apply the filter between two reads. The state is
+        // compared at rest: wait for quiescence, scan, point-read every key, scan again - and start over if the
+        // two scans differ (something still moved); what is evaluated is a scan/point-read set bracketed by two
+        // identical scans.
+        let mut scan;
+        let mut gets: BTreeMap<Vec<u8>, Option<Vec<u8>>> = BTreeMap::new();
+        let mut attempts = 0;
+        loop {
+            if self.cfg.workers > 0 {
+                self.wait_quiescent()?;
+            }
+            scan = crate::sweep::dump(&h)?;
+            gets.clear();
+            let mut keys: std::collections::BTreeSet<Vec<u8>> = exp.keys().cloned().collect();
+            keys.extend(scan.keys().cloned());
+            for k in keys {
+                let g = h
+                    .get(&k)
+                    .map_err(|e| Deviation::new("read-error:get", format!("{what}: {e:?}")))?
+                    .map(|v| v.to_vec());
+                gets.insert(k, g);
+            }
+            if self.cfg.workers == 0 {
+                break;
+            }
+            let scan2 = crate::sweep::dump(&h)?;
+            if scan2 == scan {
+                break;
+            }
+            attempts += 1;
+            self.stats.inc("filter.check_restarted_state_moved");
+            if attempts > 20 {
+                return Err(Deviation::new("inconclusive:quiesce", format!("{what}: the keyspace kept changing under the filter check")));
+            }
         }
-        let scan = crate::sweep::dump(&h)?;
         let mut keys: std::collections::BTreeSet<Vec<u8>> = exp.keys().cloned().collect();
         keys.extend(scan.keys().cloned());
         for k in keys {
             let e = exp.get(&k);
             let s = scan.get(&k);
-            let g = h
-                .get(&k)
-                .map_err(|e| Deviation::new("read-error:get", format!("{what}: {e:?}")))?
-                .map(|v| v.to_vec());
+            let g = gets.get(&k).cloned().flatten();
             if g.as_ref() != s {
                 return Err(Deviation::new(
                     "filter:point-scan-disagree",
@@ -1076,6 +1117,52 @@ impl Exec {
             };
             let is_original = s == e;
             let is_filtered = s == filtered_form.as_ref();
+            if !is_original && !is_filtered {
+                // explained-by predicates of the open findings F3 and F1 (App. D) apply in filtered keyspaces too:
+                // F3: after a reopen, a key whose latest operation is an ingested tombstone shows exactly the journaled
+                //     value that tombstone removed (or, for a replace verdict, that value's filtered form);
+                // F1: a key shows a value that an earlier remove_weak of that key removed
+                let st = &self.model.ks[&ks];
+                let f3 = self.opens >= 2
+                    && e.is_none()
+                    && st.ingest_tombstoned.get(&k).is_some_and(|prev| s == Some(prev) || (v == 2 && s == Some(&filt::replaced(&k))));
+                let f1 = s.is_some_and(|o| st.weak_deleted.get(&k).is_some_and(|vs| vs.contains(o)));
+                // F9: after a reopen, a remove-verdict key whose latest operation is a value written by bulk
+                // ingestion (which the filter has removed from the tables) shows exactly the older value that the
+                // ingestion had replaced (its journaled write was replayed)
+                let f9 = self.opens >= 2 && v == 1 && e.is_some() && st.ingest_overwrote.get(&k).is_some_and(|prev| s == Some(prev));
+                if f9 {
+                    if self.soft.len() < 4 {
+                        self.soft.push(Deviation::new(
+                            "known:ingested-item-filtered-journal-resurrection",
+                            format!(
+                                "{what}: key {} (verdict remove) shows {:?} [after a reopen: its latest operation is a value written by bulk ingestion, which the compaction filter removed; it shows the older journaled value that the ingestion had replaced]",
+                                show(&k),
+                                s.map(|v| show(v))
+                            ),
+                        ));
+                    }
+                    self.stats.inc("filter.known_f9");
+                    continue;
+                }
+                if f3 || f1 {
+                    if self.soft.len() < 4 {
+                        self.soft.push(if f3 {
+                            Deviation::new(
+                                "known:ingested-tombstone-gc-journal-resurrection",
+                                format!("{what}: key {} shows {:?} [after a reopen: its latest operation is a tombstone written by bulk ingestion and it shows the journaled value that tombstone removed]", show(&k), s.map(|v| show(v))),
+                            )
+                        } else {
+                            Deviation::new(
+                                "known:weak-tombstone-resurrection",
+                                format!("{what}: key {} shows {:?} [a value that an earlier remove_weak of the same key removed]", show(&k), s.map(|v| show(v))),
+                            )
+                        });
+                    }
+                    self.stats.inc(if f3 { "filter.known_f3" } else { "filter.known_f1" });
+                    continue;
+                }
+            }
             if v == 0 || e.is_none() {
                 if !is_original {
                     return Err(Deviation::new(
